@@ -5,7 +5,16 @@
 (*   Mode = "grow"   every token sequence of length 0..MaxLen over Alphabet   *)
 (*   Mode = "neigh"  every script within edit distance Dist (substitute,      *)
 (*                   insert, delete one token) of an instance of a template   *)
-(* The lemmas of Classify are invariants of both.                             *)
+(*   Mode = "msig"   the multisig shape  X <k keys> Y OP_CHECKMULTISIG  for k   *)
+(*                   in {1,2,3,15..21}, keys of 33 or 65 bytes, and EVERY     *)
+(*                   candidate token in the m position X and the n position   *)
+(*                   Y: OP_1..OP_16, the opcodes just above OP_16 (OP_NOP =   *)
+(*                   0x61, OP_VER, OP_IF, OP_NOTIF, OP_VERIF), OP_0,          *)
+(*                   OP_1NEGATE, data pushes, other opcodes.  MsigLemma says  *)
+(*                   which of them ARE multisig: exactly X = OP_m, Y = OP_k   *)
+(*                   with 1 <= m <= k <= 16 (n is a small-integer opcode: an  *)
+(*                   opcode beyond OP_16 is not a number, whatever its byte)  *)
+(* The lemmas of Classify are invariants of all three.                        *)
 EXTENDS Classify, Json
 
 CONSTANTS Mode, MaxLen, Dist, PushLens, WithBig
@@ -39,8 +48,23 @@ Edits(s) ==
 \* the edit ball is explored as TLC steps (one edit per step), so that it is built in parallel and
 \* deduplicated by fingerprint; the view is the script alone
 VARIABLES s, dist
-Init == IF Mode = "grow" THEN s = <<>> /\ dist = 0
-        ELSE s \in {Renum(t) : t \in Templates} /\ dist = 0
+\* ---- the multisig shape with every candidate in the m and n positions ----------------
+SmallInts == {SmallInt(k) : k \in 1..16}
+MPos == SmallInts \cup {Op("NOP"), Op("VER"), Op("1NEGATE"), Op("DUP"), OP0, Push(1, "min", 1), Push(33, "min", 1)}
+NPos == SmallInts \cup {Op("NOP"), Op("VER"), Op("IF"), Op("NOTIF"), Op("VERIF"), Op("1NEGATE"), Op("CHECKMULTISIG"), Op("DUP"),
+                        OP0, Push(1, "min", 1), Push(20, "min", 1), Push(1, "big", 1)}
+KeyCounts == {1, 2, 3, 15, 16, 17, 18, 19, 20, 21}
+MsigShape(x, k, kl, y) == Renum(<<x>> \o [i \in 1..k |-> Push(kl, "min", 0)] \o <<y, Op("CHECKMULTISIG")>>)
+MsigScripts == {MsigShape(x, k, kl, y) : x \in MPos, k \in KeyCounts, kl \in {33, 65}, y \in NPos}
+\* which of them are multisig (k = number of pushes between the first token and the last two)
+MsigLemma == Mode = "msig" =>
+   LET k == Len(s) - 3 IN
+   IsKind("multisig", s) <=> (/\ k \in 1..16 /\ s[Len(s) - 1] = SmallInt(k)
+                               /\ \E m \in 1..k : s[1] = SmallInt(m))
+
+Init == CASE Mode = "grow" -> s = <<>> /\ dist = 0
+          [] Mode = "neigh" -> s \in {Renum(t) : t \in Templates} /\ dist = 0
+          [] Mode = "msig" -> s \in MsigScripts /\ dist = 0
 Next == \/ /\ Mode = "grow" /\ Len(s) < MaxLen
            /\ \E a \in Alphabet(Len(s) + 1) : s' = Append(s, a)
            /\ dist' = dist
@@ -58,7 +82,7 @@ Emit == PrintT(ToJson([k |-> "cls", s |-> Toks(s), addr |-> AddrKindOf(s),
 \* exported once per distinct state (the constraint is evaluated once per state)
 Export == Emit
 
-Lemmas == OneKind(s) /\ Canonical(s)
+Lemmas == OneKind(s) /\ Canonical(s) /\ MsigLemma
 \* every parameter set in the grid builds a script of its own kind and nothing else
 Params == [h : {Data(l, 1) : l \in PushLens}]
 BuildLemma == /\ \A K \in AddrKindSet \cup {"p2pk"} : \A prm \in Params : BuildFaithful(K, prm)
